@@ -1,6 +1,7 @@
 from __future__ import annotations
 
 import logging
+import os
 from typing import (
     IO,
     Callable,
@@ -46,7 +47,9 @@ from pyhf.typing import (
 
 log = logging.getLogger(__name__)
 
-FileCacheType = MutableMapping[str, Tuple[Union[IO[str], IO[bytes]], Set[str]]]
+FileCacheType = MutableMapping[
+    str, Tuple[Union[IO[str], IO[bytes]], Set[str], Tuple[int, int]]
+]
 MountPathType = Iterable[Tuple[Path, Path]]
 ResolverType = Callable[[str], Path]
 
@@ -116,12 +119,16 @@ def import_root_histogram(
     path = path or ''
     path = path.strip('/')
     fullpath = str(resolver(filename))
-    if fullpath not in filecache:
+    # a cached file is only reused if it has not been rewritten since
+    file_stat = os.stat(fullpath)
+    stamp = (file_stat.st_mtime_ns, file_stat.st_size)
+    cached = filecache.get(fullpath)
+    if cached is None or cached[2] != stamp:
         f = uproot.open(fullpath)
         keys = set(f.keys(cycle=False))
-        filecache[fullpath] = (f, keys)
+        filecache[fullpath] = (f, keys, stamp)
     else:
-        f, keys = filecache[fullpath]
+        f, keys, _ = cached
 
     fullname = "/".join([path, name])
 
